@@ -30,7 +30,8 @@
  * op "cgibody": mod_cgi's request-body path.  The body arrives by the schedule (numbers / c<n>,
  *   temp files with flag 512); cgi_write_request() writes it to the script's stdin pipe (or, not
  *   streaming and the body in one temp file, the temp file itself becomes stdin, as in
- *   cgi_create_env()); the harness reads the other end.   result: cgibody eof=<0|1> pend=<n> out=<hex>
+ *   cgi_create_env()); the harness reads the other end (a last schedule element "s<late>.<rd>" makes it a
+ *   slow reader: the pipe fills up and write attempts meet EAGAIN).   result: cgibody eof=<0|1> pend=<n> out=<hex>
  * op "h2data <content-length|-1> <max-request-size kB> <consumer 0|1> <body> <frames> <segmentation>":
  *   HTTP/2 request body.  One open stream; the body is carried by DATA frames "len.pad.end[.x]" (pad -1 =
  *   not padded, end 1 = END_STREAM, x = Pad Length octet present but no padding octets follow); the frame
@@ -687,6 +688,20 @@ int main(void) {
             make_body(ltv_tok[17]);
             buffer_clear(capture);
             int eof = 0, wfd_open = 1;
+            /* optional last schedule element "s<late>.<rd>": the script is a slow reader: it does not read
+             * during the first <late> rounds and then reads at most <rd> bytes per round (0: all there is),
+             * and the client's data keeps arriving (one schedule step per round) whether or not it was read */
+            int slow = 0; long rd_late = 0; size_t rd_max = 0;
+            {
+                char *sp = strrchr(ltv_tok[18], ',');
+                if (sp && sp[1] == 's') {
+                    slow = 1;
+                    rd_late = atol(sp + 2);
+                    const char *dot = strchr(sp + 2, '.');
+                    rd_max = dot ? (size_t)atol(dot + 1) : 0;
+                    *sp = '\0';
+                }
+            }
             char *save = NULL;
             char *step = strtok_r(ltv_tok[18], ",", &save);
             if (step && step[0] == 'c') {
@@ -728,14 +743,29 @@ int main(void) {
                         else fdevent_poll(srv.ev, 0);
                         wfd_open = 0;
                     }
-                    char rb[65536]; ssize_t n;
-                    while ((n = read(pfd[0], rb, sizeof(rb))) > 0) buffer_append_string_len(capture, rb, (size_t)n);
+                    char rb[65536]; ssize_t n = -1;
+                    if (!slow)
+                        while ((n = read(pfd[0], rb, sizeof(rb))) > 0) buffer_append_string_len(capture, rb, (size_t)n);
+                    else if (i >= rd_late) {
+                        size_t left = rd_max ? rd_max : (size_t)-1;
+                        while (left && (n = read(pfd[0], rb, left < sizeof(rb) ? left : sizeof(rb))) > 0) {
+                            buffer_append_string_len(capture, rb, (size_t)n);
+                            left -= (size_t)n;
+                        }
+                    }
                     if (0 == n) eof = 1;
-                    if (chunkqueue_is_empty(cq) || !wfd_open) {
-                        if (!step) break;
+                    if (chunkqueue_is_empty(cq) || !wfd_open || slow) {
+                        if (!step) { if (chunkqueue_is_empty(cq) || !wfd_open) break; continue; }
                         body_arrive((size_t)atol(step), flags & F_TEMPFILES);
                         step = strtok_r(NULL, ",", &save);
                     }
+                }
+                if (!eof) {
+                    /* the script reads on: everything still in the pipe, up to the end of input if the
+                     * server has closed its end (the harness's own close below is not the server's) */
+                    char rb[65536]; ssize_t n;
+                    while ((n = read(pfd[0], rb, sizeof(rb))) > 0) buffer_append_string_len(capture, rb, (size_t)n);
+                    if (0 == n) eof = 1;
                 }
                 if (wfd_open) {
                     if (-1 != ch->fdtocgi) { fdevent_fdnode_event_del(srv.ev, ch->fdntocgi); fdevent_unregister(srv.ev, ch->fdntocgi); }
